@@ -35,10 +35,13 @@ def _funcname(f) -> str:
 def array_names(fn: ast.FunctionDef, array_params: Set[str]) -> Set[str]:
     """Names that (may) hold arrays: fixpoint over assignments (AST approximation of E7's facts)."""
     arr = set(array_params)
+    tuples: Set[str] = set()      # names bound to a tuple/list literal of arrays
 
     def is_arr(e) -> bool:
         if isinstance(e, ast.Name):
             return e.id in arr
+        if isinstance(e, ast.Subscript) and isinstance(e.value, ast.Name) and e.value.id in tuples and not isinstance(e.slice, ast.Slice):
+            return True
         if isinstance(e, ast.Call):
             f = _funcname(e.func)
             if f in REDUCTIONS or f in ("len", "int", "float", "float64", "int64", "log", "pow", "round") and not (
@@ -78,6 +81,10 @@ def array_names(fn: ast.FunctionDef, array_params: Set[str]) -> Set[str]:
         changed = False
         for st in ast.walk(fn):
             if isinstance(st, ast.Assign) and len(st.targets) == 1 and isinstance(st.targets[0], ast.Name):
+                if isinstance(st.value, (ast.Tuple, ast.List)) and st.value.elts and all(is_arr(x) for x in st.value.elts) \
+                        and st.targets[0].id not in tuples:
+                    tuples.add(st.targets[0].id)
+                    changed = True
                 if st.targets[0].id not in arr and is_arr(st.value):
                     arr.add(st.targets[0].id)
                     changed = True
